@@ -4,7 +4,7 @@ import json, os
 HERE = os.path.dirname(os.path.dirname(os.path.abspath(__file__)))
 ALL = ['C%02d' % i for i in range(1, 21)]
 
-COMMON_NOTE = ('Trusted: Lean 4.33 kernel (axioms propext, Classical.choice, Quot.sound only; audited each run), the hand-written '
+COMMON_NOTE = ('Static tie of the hand-written model: fingerprints of the petl functions it mirrors are regenerated on every run and must equal the snapshot taken when the model was validated (theorem Cxx_sources_as_validated; C02, C03, C11, C20 are tied by their own translators instead). Trusted: Lean 4.33 kernel (axioms propext, Classical.choice, Quot.sound only; audited each run), the hand-written '
                'models, the harness value coding/generators, and the CPython builtins the model abstracts. ')
 
 CHECKS = {
